@@ -38,8 +38,16 @@ Everything proved about the *driver* (Props/C14.lean, part A) is independent of 
 -/
 namespace ScyllaVerif.Prepared
 
-/-- statement ids and result-metadata ids: opaque byte strings (ASCII in the harness) -/
+/-- result-metadata ids: opaque byte strings (ASCII in the harness); the EMPTY string is the empty id the driver
+presents when it has none (connection.rs:1015, 1036) -/
 abbrev Id := String
+
+/-- statement ids: opaque tokens the node hands out at PREPARE; the harness renders `⟨s, v⟩` as the bytes `q<s>v<v>`
+(statement number, version bumped by the `idChange` event). The driver only compares them for equality. -/
+structure SId where
+  stmt : Nat
+  ver : Nat
+deriving DecidableEq, Repr
 
 inductive Ty | int | text
 deriving DecidableEq, Repr
@@ -71,21 +79,25 @@ structure RawRows where
 deriving DecidableEq, Repr
 
 structure ExecReq where
-  id : Id
+  id : SId
   /-- result metadata id: present iff the connection negotiated the extension -/
   mid : Option Id
   skip : Bool
+  /-- the complete list of bound values -/
   values : List Nat
   cl : Nat
+  /-- serial consistency -/
+  scl : Option Nat
   ts : Option Int
   pageSize : Option Nat
   ps : Option String
 deriving DecidableEq, Repr
 
 structure BatchReq where
-  /-- (statement id, bound value) per statement, in order -/
-  stmts : List (Id × Nat)
+  /-- (statement id, bound values) per statement, in order -/
+  stmts : List (SId × List Nat)
   cl : Nat
+  scl : Option Nat
   ts : Option Int
 deriving DecidableEq, Repr
 
@@ -110,7 +122,7 @@ deriving DecidableEq, Repr
 
 /-- RESULT/Prepared as on the wire (`mid` present iff the connection has the extension) -/
 structure PrepResp where
-  id : Id
+  id : SId
   mid : Option Id
   noMeta : Bool
   colCount : Nat
@@ -118,7 +130,9 @@ structure PrepResp where
 deriving DecidableEq, Repr
 
 inductive Resp
-  | unprepared (id : Id)
+  /-- ERROR 0x2500 with the statement id -/
+  | unprepared (id : SId)
+  /-- any other ERROR: `code ≠ 0x2500` (0x2500 on the wire IS `unprepared`; theorems carry this side condition) -/
   | error (code : Nat)
   | void
   | rows (r : RowsResp)
@@ -148,16 +162,22 @@ def cachedParams (hasExt useCached : Bool) (m : RMeta) : CParams :=
     | none, true => some ""
   { skip, cached, mid }
 
-/-- result.rs:810-852: flag combination NO_METADATA + METADATA_CHANGED is a parse error -/
-def rowsMalformed (r : RowsResp) : Bool := r.noMeta && r.newId.isSome
+/-- result.rs:767, 820: `metadata_changed = features.scylla_metadata_id_supported && (flags & 0x0008 != 0)`: the
+flag is honoured only on a connection with the extension. (On a connection WITHOUT it a set flag would leave the id
+bytes unparsed in the stream; that garbage is not modelled - a node without the extension never sets the flag,
+`Props.C14.serve_noext`.) -/
+def newIdSeen (ext : Bool) (r : RowsResp) : Option Id := if ext then r.newId else none
+
+/-- result.rs:822-825: flag combination NO_METADATA + METADATA_CHANGED is a parse error -/
+def rowsMalformed (ext : Bool) (r : RowsResp) : Bool := r.noMeta && (newIdSeen ext r).isSome
 
 /-- result.rs:901-945 `deserialize_metadata`: which metadata the rows are decoded with -/
-def metaUsed (cached : Option RMeta) (r : RowsResp) : RMeta :=
+def metaUsed (ext : Bool) (cached : Option RMeta) (r : RowsResp) : RMeta :=
   if r.noMeta then
     match cached with
     | some c => c
     | none => RMeta.empty
-  else { id := r.newId, colCount := r.colCount, cols := r.cols }
+  else { id := newIdSeen ext r, colCount := r.colCount, cols := r.cols }
 
 /-- connection.rs:938-972 (`mu` = metadata of the response as decoded, i.e. `metaUsed`) -/
 def handleNewId (cur mu : RMeta) : RMeta :=
@@ -172,7 +192,7 @@ inductive RepErr | idChanged
 deriving DecidableEq, Repr
 
 /-- connection.rs:695-743 after `prepare_raw` succeeded with `p`: new current metadata or the id error -/
-def reprepare (stmtId : Id) (cur : RMeta) (p : PrepResp) : Except RepErr RMeta :=
+def reprepare (stmtId : SId) (cur : RMeta) (p : PrepResp) : Except RepErr RMeta :=
   if p.id != stmtId then .error .idChanged
   else
     let m := prepMeta p
@@ -238,10 +258,10 @@ deriving DecidableEq, Repr
 def unpreparedCode : Nat := 0x2500
 
 /-- the final response of an execution as the caller sees it (connection_verif.rs `unpack`) -/
-def execOutcome (cached : Option RMeta) : Resp → Outcome
+def execOutcome (ext : Bool) (cached : Option RMeta) : Resp → Outcome
   | .rows r =>
-    if rowsMalformed r then .parseError
-    else let m := metaUsed cached r; .rows m (decodeRows m.cols r.rows.count r.rows.cells) r.more
+    if rowsMalformed ext r then .parseError
+    else let m := metaUsed ext cached r; .rows m (decodeRows m.cols r.rows.count r.rows.cells) r.more
   | .void => .void
   | .prepared _ => .void
   | .error c => .dbError c
@@ -252,7 +272,7 @@ def execOutcome (cached : Option RMeta) : Resp → Outcome
 /-- prepared.rs:211-219 `PreparedStatementSharedData` (what all clones of one PreparedStatement share) -/
 structure Stmt where
   text : String
-  id : Id
+  id : SId
   cur : RMeta
   initial : RMeta
 deriving DecidableEq, Repr
@@ -263,18 +283,22 @@ structure ExecOp where
   node : Nat
   useCached : Bool
   cl : Nat
+  scl : Option Nat
+  /-- the timestamp of the request: the statement's own, else one drawn from the connection's generator when the
+  request was first built (connection.rs:1055-1063) -/
   ts : Option Int
   pageSize : Option Nat
   ps : Option String
-  value : Nat
+  values : List Nat
 deriving DecidableEq, Repr
 
 structure BatchOp where
   node : Nat
   cl : Nat
+  scl : Option Nat
   ts : Option Int
-  /-- (statement object, bound value) -/
-  items : List (Nat × Nat)
+  /-- (statement object, bound values) -/
+  items : List (Nat × List Nat)
 deriving DecidableEq, Repr
 
 inductive Pc
@@ -321,18 +345,39 @@ structure SrvStmt where
   prepFail : Bool
 deriving DecidableEq, Repr
 
+/-- one-shot byzantine answers (outside the server assumption; they drive the driver's error branches) -/
+inductive Ov
+  /-- next PREPARE answered RESULT/Void -/
+  | prepVoid
+  /-- next PREPARE answered with NO_METADATA but the real column count -/
+  | prepCount
+  /-- next EXECUTE of a known id answered ERROR 0x1001 / RESULT/Void -/
+  | execError
+  | execVoid
+  /-- … answered with NO_METADATA and METADATA_CHANGED both set (only on a connection with the extension) -/
+  | malformed
+  /-- … answered with metadata (no id) although skip was requested -/
+  | forceMeta
+  /-- … answered with NO_METADATA although metadata was due -/
+  | forceNoMeta
+deriving DecidableEq, Repr
+
 structure Node where
   ext : Bool
-  /-- the prepared-statement cache: id ↦ statement -/
-  prepared : List (Id × Nat)
+  /-- connections to this node were opened with a timestamp generator -/
+  gen : Bool
+  /-- the prepared-statement cache: the ids currently known (an id names its statement) -/
+  prepared : List SId
   st : Nat → SrvStmt
   /-- byzantine: UNPREPARED names an id nobody asked about -/
   liar : Bool
+  /-- byzantine: pending one-shot answer -/
+  ov : Option Ov
 
 def textOf (s : Nat) : String := s!"q{s}"
-def idOf (s idv : Nat) : Id := s!"q{s}v{idv}"
+def idOf (s idv : Nat) : SId := ⟨s, idv⟩
 def emptyMid : Id := "mE"
-def bogusId : Id := "bogus"
+def bogusId : SId := ⟨1000, 0⟩
 
 def stmtOfTextAux (t : String) : Nat → Option Nat
   | 0 => none
@@ -341,9 +386,8 @@ def stmtOfTextAux (t : String) : Nat → Option Nat
 /-- the statement universe of the harness: `q0 … q7` -/
 def stmtOfText (t : String) : Option Nat := stmtOfTextAux t 8
 
-def lookupId (id : Id) : List (Id × Nat) → Option Nat
-  | [] => none
-  | (i, s) :: rest => if i == id then some s else lookupId id rest
+def lookupId (id : SId) (prepared : List SId) : Option Nat :=
+  if prepared.contains id then some id.stmt else none
 
 def rowCells (cols : List Col) (v row : Nat) : Nat → List Cell
   | j =>
@@ -372,9 +416,13 @@ def announcedMid (k : Kind) (m : SMeta) : Id :=
   | .late0 => emptyMid
   | _ => m.mid
 
-def firstUnknown (prepared : List (Id × Nat)) : List (Id × Nat) → Option Id
+def firstUnknown (prepared : List SId) : List (SId × List Nat) → Option SId
   | [] => none
   | (id, _) :: rest => if (lookupId id prepared).isSome then firstUnknown prepared rest else some id
+
+def isExecOv : Option Ov → Bool
+  | some .execError | some .execVoid | some .malformed | some .forceMeta | some .forceNoMeta => true
+  | _ => false
 
 def serve (n : Node) : Req → Node × Resp
   | .prepare text =>
@@ -383,27 +431,37 @@ def serve (n : Node) : Req → Node × Resp
     | some s =>
       let ss := n.st s
       if ss.prepFail then (n, .error 0x2200)
+      else if n.ov == some .prepVoid then ({ n with ov := none }, .void)
       else
         let id := idOf s ss.idv
-        let n' := { n with prepared := (id, s) :: n.prepared }
-        let normal := ss.kind == .normal
+        let count := n.ov == some .prepCount
+        let n' := { n with prepared := id :: n.prepared, ov := if count then none else n.ov }
+        let normal := ss.kind == .normal && !count
         (n', .prepared { id, mid := if n.ext then some (announcedMid ss.kind ss.smeta) else none,
                          noMeta := !normal,
-                         colCount := if normal then ss.smeta.cols.length else 0,
+                         colCount := if normal || count then ss.smeta.cols.length else 0,
                          cols := if normal then ss.smeta.cols else [] })
   | .execute r =>
     match lookupId r.id n.prepared with
     | none => (n, .unprepared (if n.liar then bogusId else r.id))
     | some s =>
+      let n' := if isExecOv n.ov then { n with ov := none } else n
+      if n.ov == some .execError then (n', .error 0x1001)
+      else if n.ov == some .execVoid then (n', .void)
+      else
       let m := (n.st s).smeta
       let changed := n.ext && r.mid != some m.mid
       let (raw, more) := genRows m.cols (r.values.headD 0) r.pageSize r.ps
-      if changed then
-        (n, .rows { noMeta := false, newId := some m.mid, colCount := m.cols.length, cols := m.cols, more, rows := raw })
-      else if r.skip then
-        (n, .rows { noMeta := true, newId := none, colCount := m.cols.length, cols := [], more, rows := raw })
+      if n.ov == some .malformed && n.ext then
+        (n', .rows { noMeta := true, newId := some m.mid, colCount := m.cols.length, cols := [], more, rows := raw })
+      else if n.ov == some .forceNoMeta then
+        (n', .rows { noMeta := true, newId := none, colCount := m.cols.length, cols := [], more, rows := raw })
+      else if changed then
+        (n', .rows { noMeta := false, newId := some m.mid, colCount := m.cols.length, cols := m.cols, more, rows := raw })
+      else if r.skip && !(n.ov == some .forceMeta) then
+        (n', .rows { noMeta := true, newId := none, colCount := m.cols.length, cols := [], more, rows := raw })
       else
-        (n, .rows { noMeta := false, newId := none, colCount := m.cols.length, cols := m.cols, more, rows := raw })
+        (n', .rows { noMeta := false, newId := none, colCount := m.cols.length, cols := m.cols, more, rows := raw })
   | .batch b =>
     match firstUnknown n.prepared b.stmts with
     | some id => (n, .unprepared (if n.liar then bogusId else id))
@@ -415,16 +473,18 @@ inductive Event
   | idChange (s : Nat)
   | prepFail (s : Nat) (on : Bool)
   | liar (on : Bool)
+  | override (o : Ov)
 deriving DecidableEq, Repr
 
 def setSt (f : Nat → SrvStmt) (s : Nat) (v : SrvStmt) : Nat → SrvStmt := fun i => if i = s then v else f i
 
 def applyEvent (n : Node) : Event → Node
-  | .evict s => { n with prepared := n.prepared.filter (fun e => e.2 != s) }
+  | .evict s => { n with prepared := n.prepared.filter (fun e => e.stmt != s) }
   | .schemaChange s m => { n with st := setSt n.st s { n.st s with smeta := m } }
   | .idChange s => { n with st := setSt n.st s { n.st s with idv := (n.st s).idv + 1 } }
   | .prepFail s on => { n with st := setSt n.st s { n.st s with prepFail := on } }
   | .liar on => { n with liar := on }
+  | .override o => { n with ov := some o }
 
 /-! ## global state and steps -/
 
@@ -436,6 +496,8 @@ structure State where
   slot : Nat → Option Nat
   node : Nat → Node
   caller : Nat → Caller
+  /-- draws made so far from the (shared, scripted) timestamp generator: the k-th draw is `1000000 + k` -/
+  tsCtr : Nat
 
 def upd {α : Type} (f : Nat → α) (k : Nat) (v : α) : Nat → α := fun i => if i = k then v else f i
 
@@ -454,18 +516,21 @@ structure ExecArgs where
   node : Nat
   useCached : Bool
   cl : Nat
+  scl : Option Nat
+  /-- the statement's own timestamp (`set_timestamp`) -/
   ts : Option Int
   pageSize : Option Nat
   ps : Option String
-  value : Nat
+  values : List Nat
 deriving DecidableEq, Repr
 
 structure BatchArgs where
   node : Nat
   cl : Nat
+  scl : Option Nat
   ts : Option Int
-  /-- (statement slot, value) -/
-  items : List (Nat × Nat)
+  /-- (statement slot, values) -/
+  items : List (Nat × List Nat)
 deriving DecidableEq, Repr
 
 inductive Op
@@ -476,15 +541,22 @@ deriving DecidableEq, Repr
 
 /-- connection.rs:1065-1081: the EXECUTE frame of a statement object under given cached-metadata parameters -/
 def execFrame (s : Stmt) (op : ExecOp) (cp : CParams) : ExecReq :=
-  { id := s.id, mid := cp.mid, skip := cp.skip, values := [op.value], cl := op.cl, ts := op.ts,
+  { id := s.id, mid := cp.mid, skip := cp.skip, values := op.values, cl := op.cl, scl := op.scl, ts := op.ts,
     pageSize := op.pageSize, ps := op.ps }
+
+/-- connection.rs:1055-1063, 1195-1201: `statement.get_timestamp().or_else(|| generator.next_timestamp())`:
+the statement's own timestamp wins and then the generator is NOT consulted -/
+def drawTs (st : State) (node : Nat) (own : Option Int) : Option Int × Nat :=
+  match own with
+  | some t => (some t, st.tsCtr)
+  | none => if (st.node node).gen then (some (Int.ofNat (1000000 + st.tsCtr)), st.tsCtr + 1) else (none, st.tsCtr)
 
 def setCaller (st : State) (k : Nat) (c : Caller) : State := { st with caller := upd st.caller k c }
 
 def setCur (st : State) (o : Nat) (m : RMeta) : State :=
   { st with objs := upd st.objs o { st.objs o with cur := m } }
 
-def resolveItems (slot : Nat → Option Nat) : List (Nat × Nat) → Option (List (Nat × Nat))
+def resolveItems (slot : Nat → Option Nat) : List (Nat × List Nat) → Option (List (Nat × List Nat))
   | [] => some []
   | (s, v) :: rest =>
     match slot s, resolveItems slot rest with
@@ -504,18 +576,20 @@ def start (st : State) (k : Nat) (op : Op) : State × Obs :=
       | none => (st, .invalid)
       | some o =>
         let s := st.objs o
-        let eop : ExecOp := { obj := o, node := a.node, useCached := a.useCached, cl := a.cl, ts := a.ts,
-                              pageSize := a.pageSize, ps := a.ps, value := a.value }
+        let (ts, ctr) := drawTs st a.node a.ts
+        let eop : ExecOp := { obj := o, node := a.node, useCached := a.useCached, cl := a.cl, scl := a.scl, ts := ts,
+                              pageSize := a.pageSize, ps := a.ps, values := a.values }
         let cp := cachedParams (st.node a.node).ext a.useCached s.cur
         let r := Req.execute (execFrame s eop cp)
-        (setCaller st k ⟨.exec1 eop cp.cached, .req a.node r⟩, .sent a.node r)
+        (setCaller { st with tsCtr := ctr } k ⟨.exec1 eop cp.cached, .req a.node r⟩, .sent a.node r)
     | .batch a =>
       match resolveItems st.slot a.items with
       | none => (st, .invalid)
       | some items =>
-        let frame : BatchReq := { stmts := items.map (fun (o, v) => ((st.objs o).id, v)), cl := a.cl, ts := a.ts }
+        let (ts, ctr) := drawTs st a.node a.ts
+        let frame : BatchReq := { stmts := items.map (fun (o, v) => ((st.objs o).id, v)), cl := a.cl, scl := a.scl, ts := ts }
         let r := Req.batch frame
-        (setCaller st k ⟨.batch ⟨a.node, a.cl, a.ts, items⟩ frame, .req a.node r⟩, .sent a.node r)
+        (setCaller { st with tsCtr := ctr } k ⟨.batch ⟨a.node, a.cl, a.scl, ts, items⟩ frame, .req a.node r⟩, .sent a.node r)
   | _, _ => (st, .invalid)
 
 /-- the node the request is addressed to consumes it and answers -/
@@ -533,13 +607,13 @@ def send (st : State) (k : Nat) (pc : Pc) (node : Nat) (r : Req) : State × Obs 
   (setCaller st k ⟨pc, .req node r⟩, .sent node r)
 
 /-- batch: the statement the UNPREPARED id belongs to (`find_map` over the batch's statements) -/
-def findInBatch (objs : Nat → Stmt) (id : Id) : List (Nat × Nat) → Option Nat
+def findInBatch (objs : Nat → Stmt) (id : SId) : List (Nat × List Nat) → Option Nat
   | [] => none
   | (o, _) :: rest => if (objs o).id == id then some o else findInBatch objs id rest
 
 /-- `handle_result_metadata_new_id` applied to a response (only Rows responses matter) -/
-def handleResp (st : State) (o : Nat) (cached : Option RMeta) : Resp → State
-  | .rows r => if rowsMalformed r then st else setCur st o (handleNewId (st.objs o).cur (metaUsed cached r))
+def handleResp (st : State) (ext : Bool) (o : Nat) (cached : Option RMeta) : Resp → State
+  | .rows r => if rowsMalformed ext r then st else setCur st o (handleNewId (st.objs o).cur (metaUsed ext cached r))
   | _ => st
 
 /-- caller `k` receives the response in flight to it and reacts -/
@@ -560,12 +634,13 @@ def recv (st : State) (k : Nat) : State × Obs :=
       | _ => finish st k .unexpectedResponse
     | .exec1 op cached =>
       -- connection.rs:1100 (before looking at the response kind)
-      let st1 := handleResp st op.obj cached resp
+      let ext := (st.node op.node).ext
+      let st1 := handleResp st ext op.obj cached resp
       match resp with
       | .unprepared _ =>
         -- connection.rs:1112 `reprepare(prepared_statement.get_statement(), ..)`
         send st1 k (.execPrep op) op.node (.prepare (st1.objs op.obj).text)
-      | r => finish st1 k (execOutcome cached r)
+      | r => finish st1 k (execOutcome ext cached r)
     | .execPrep op =>
       match resp with
       | .prepared p =>
@@ -582,8 +657,9 @@ def recv (st : State) (k : Nat) : State × Obs :=
       | .unprepared _ => finish st k (.dbError unpreparedCode)
       | _ => finish st k .unexpectedResponse
     | .exec2 op cached =>
-      let st1 := handleResp st op.obj cached resp
-      finish st1 k (execOutcome cached resp)
+      let ext := (st.node op.node).ext
+      let st1 := handleResp st ext op.obj cached resp
+      finish st1 k (execOutcome ext cached resp)
     | .batch op frame =>
       match resp with
       | .unprepared id =>
